@@ -163,6 +163,8 @@ func Alphabet(corner bool) []Sym {
 		jp("json-corner", "test-missing-null", `[{"op":"test","path":"/missing","value":null},{"op":"add","path":"/tested3","value":true}]`)
 		jp("json-corner", "move-to-array-index", `[{"op":"move","from":"/m","path":"/a/0"}]`)
 		jp("json-corner", "copy-to-array-index", `[{"op":"copy","from":"/m","path":"/a/1"}]`)
+		jp("json-corner", "copy-beyond-array-end", `[{"op":"copy","from":"/m","path":"/a/7"}]`)
+		jp("json-corner", "move-beyond-array-end", `[{"op":"move","from":"/m","path":"/a/7"}]`)
 		jp("json-corner", "add-beyond-array-end", `[{"op":"add","path":"/a/5","value":1}]`)
 		jp("json-corner", "remove-array-out-of-range", `[{"op":"remove","path":"/a/7"}]`)
 		jp("json-corner", "add-leading-zero-index", `[{"op":"add","path":"/a/00","value":1}]`)
